@@ -109,6 +109,8 @@ def c19a(ctx):
     readers = []
     for qn in (COMPACT + ':BundleDataV1.read_size', COMPACT + ':BundleDataV1.read_tile', COMPACT + ':BundleDataV1.append_tile'):
         fn = ctx.fn(qn)
+        if fn.name != 'read_size':
+            fn = repo.with_inlined(fn, ['read_size'])       # a reader may get the size word through read_size()
         for kind, f, c, rest in _struct_calls(fn, repo, mod):
             if kind == 'unpack' and f and len(f.lstrip('<>=!@')) == 1:
                 readers.append((fn, f, c))
